@@ -90,6 +90,13 @@ def run(prop, tier, seed, scratch, replay, t0):
     if not ok:
         proof_problems.append("lake build failed:\n" + log[-3000:])
     model_ok = os.path.exists(common.DRIVER) and ok
+    if not ok:
+        # a proof may be broken while the model still builds: the correspondence is then still worth running, it is
+        # part of the search for a failing input
+        import subprocess
+        p = subprocess.run(["lake", "build", "gffdriver"], cwd=common.LEAN, stdout=subprocess.PIPE,
+                           stderr=subprocess.STDOUT, text=True, timeout=3000)
+        model_ok = p.returncode == 0 and os.path.exists(common.DRIVER)
     thms, problems, audit_cmd = ({}, [], "")
     try:
         thms, problems, audit_cmd = common.audit(prop)
